@@ -21,6 +21,7 @@ KF_KINDS = {
     "init-false": "schema-init-false-field",
     "union-pack": "union-speculative-packer",
     "nt-ovc": "schema-nt-override-in-containers",
+    "strategy-origin": "schema-strategy-origin-key",
 }
 
 _modn = [0]
@@ -565,6 +566,10 @@ FIXED_CASES = [
      "@dataclass\nclass Ou(DataClassDictMixin):\n    u: Union[int, None, str]\n    v: Annotated[Union[bytes, None, List[int], bool], 'n']\n    k: Union[int, str]\n"
      "    class Config(BaseConfig):\n        omit_none = True\n", "Ou",
      ["Ou(None, None, 1)", "Ou('s', [1], 'k')", "Ou(2, None, 3)"]),
+    ("strategy by origin key",
+     "def _ser(v) -> str:\n    return ','.join(map(str, v))\n@dataclass\nclass St(DataClassDictMixin):\n    x: List[int]\n"
+     "    y: List[int] = field(default_factory=list, metadata={'serialize': _ser})\n"
+     "    class Config(BaseConfig):\n        serialization_strategy = {list: {'serialize': _ser}}\n", "St", ["St([1, 2])"]),
     ("same name", "def mk(t):\n    @dataclass\n    class P(DataClassDictMixin):\n        v: t\n    return P\nP1 = mk(int)\nP2 = mk(str)\n"
                   "@dataclass\nclass HP(DataClassDictMixin):\n    a: P1\n    b: P2\n", "HP", ["HP(P1(1), P2('s'))"]),
 ]
@@ -1054,10 +1059,11 @@ def run_fixed(ctx, descr, src, vals):
                 ctx.count(("fixed", descr, vsrc, dl, ar))
                 if errs:
                     e = errs[0]
-                    kind = {"flag": "flag", "int keys": "nonstr-key", "same name": "bare-name"}.get(descr)
+                    kind = {"flag": "flag", "int keys": "nonstr-key", "same name": "bare-name", "strategy by origin key": "strategy-origin"}.get(descr)
                     ok_kf = (kind == "flag" and e.validator == "enum" and vsrc == "F.A | F.B") or \
                             (kind == "nonstr-key" and "propertyNames" in list(e.absolute_schema_path) and vsrc == "{1: 'a'}") or \
-                            (kind == "bare-name" and ar)
+                            (kind == "bare-name" and ar) or \
+                            (kind == "strategy-origin" and e.validator == "type" and list(e.absolute_path) == ["x"])
                     ctx.fail(f"{descr}: {vsrc} rejected: {e.message[:100]}",
                              {"entry": "fixed", "source": src, "dialect": dl, "all_refs": ar, "check": "validate", "value": vsrc,
                               "document": doc, "schema": s, "observed": e.message[:200], "expected": "no validation error"},
